@@ -147,7 +147,8 @@ def lookup_op(sym, fn, N, dom, compound, valuesel, strict):
 
 # --------------------------------------------------------------------------
 BOUNDS = {
-    'quick': 'left x right <= 2x2 rows (counts symbolic); keys int, None|int, None|int|str, compound (2x1/1x2); ragged '
+    'quick': 'left x right <= 2x2 rows (counts symbolic); keys int, None|int, None|int|str, compound (2x1/1x2; also listed against '
+             'the column order, with the merge-join differential); ragged '
              '2x1/1x2; cache flag and pass number (2 passes) symbolic; key field at another column position on the right (hashantijoin); '
              'lookups over <=3 rows incl. a nullable single value field',
     'thorough': '3x3 int, 3x2/2x3 None|int, 2x2 mixed/compound/ragged; lookups over <=4 rows',
